@@ -1,4 +1,5 @@
 prop("C10", files={"root": ["vf_c10_test.go"] + RES + AUTH + EV}, shared={"root": J + ["vf_ids_test.go"]},
      assumptions=["R-res (vf_rres_test.go) transcribes state resolution v1 / v2 / v2.1 with the refinements R1-R5 of DESIGN.md 5.2; the public Allowed (fresh checker per event) is the auth oracle",
                   "histories are trees by prev_events (forks, no merges) so the state at every tip is known without resolution; the rejected-event oracle is R-auth's verdict on each event against its own auth events",
-                  "the library prints 'found conflicted subgraph' lines on stdout in v2.1: ignored"])
+                  "the library prints 'found conflicted subgraph' lines on stdout in v2.1: ignored"],
+     rapidfuzz=[('root', 'C10/v1', 40), ('root', 'C10/v2', 60), ('root', 'C10/v2.1', 60)])
